@@ -6,7 +6,7 @@ From Coq Require Import ZArith List Bool Lia.
 Import ListNotations.
 Require Import Base.Py Base.ZList Model.Crc Model.Ogg
   Proofs.C15_lacing Proofs.C15_page Proofs.C15_unpage Proofs.C15_paging Proofs.C15_from_packets
-  Proofs.C15_refuted Proofs.C15_file Proofs.C15_slot.
+  Proofs.C15_refuted Proofs.C15_file Proofs.C15_slot Proofs.C15_replace.
 Require Import Base.FileModel Gen.Gen_util Proofs.FileLemmas.
 Open Scope Z_scope.
 
@@ -93,11 +93,11 @@ Print Assumptions C15_renumber_spec.
 
 (* (e) the slot loop of replace: old pages at their offsets, arbitrary bytes (other streams' pages) between and after
    them; the new renderings land in the slots, every gap is byte-identical and in the same order *)
-Theorem C15_replace_slots_partial : forall slots pre,
+Theorem C15_replace_slots : forall slots pre,
   slot_loop (pre ++ old_layout slots) (slot_olds (zlen pre) slots) (map slot_new slots) 0 0 =
     (Ok tt, pre ++ new_layout slots, new_end_of (zlen pre) slots).
 Proof. exact slot_loop_spec. Qed.
-Print Assumptions C15_replace_slots_partial.
+Print Assumptions C15_replace_slots.
 
 (* one iteration of that loop in the model (replace_slot) is exactly `resize_bytes; seek; write` of the Gallina code
    regenerated from mutagen/_util.py (C11), for every copy-buffer size and both seek flavours *)
@@ -119,6 +119,68 @@ Theorem C15_replace_prepare : forall old0 oldl news, news <> [] ->
 Proof. exact prepare_new_spec. Qed.
 Print Assumptions C15_replace_prepare.
 
+(* (e) replace end to end.  The file is `pre` followed, for each old page, by its rendering and the renderings of the
+   well-formed pages G that follow it (other streams; after the last old page: the rest of the file).  old_pages carry
+   the offsets they were read from.  The prepared new pages must render (<= 255 lacing values, struct ranges) and the
+   renumbering must stay below 2^32.  Result: pre unchanged, new renderings in the slots (surplus new pages merged into
+   the last slot, surplus slots empty), every G byte-identical -- except that, when the page count changed, the pages
+   of the edited serial after the last slot are renumbered consecutively *)
+Theorem C15_replace_spec : forall pre (run : run_t) news,
+  run <> [] -> news <> [] ->
+  Forall (fun og => Forall page_wf (snd og)) run ->
+  let old0 := fst (hd (new_page, []) run) in
+  let oldl := fst (last run (new_page, [])) in
+  let prepared := prepare_new old0 oldl news in
+  Forall (fun p => header_ok p = true /\ lacing_count p <= 255) prepared ->
+  0 <= p_sequence old0 -> p_sequence old0 + zlen news + zlen (snd (last run (new_page, []))) <= two32 ->
+  let datas := fit_slots (zlen run) (map page_bytes prepared) in
+  replace (pre ++ old_layout (mk_slots run datas)) (old_args (zlen pre) run) news =
+    (Ok tt,
+     pre ++ new_layout (mk_slots (if zlen run =? zlen news then run
+                                  else renumber_tail (p_serial old0) (p_sequence old0 + zlen news) run) datas)).
+Proof. exact replace_spec. Qed.
+Print Assumptions C15_replace_spec.
+
+(* the same on page lists: the file is the rendering of `before ++ [o1] ++ G1 ++ ... ++ [on] ++ Gn` and becomes the
+   rendering of `before ++ interleave ...` (one new page per old slot, the rest in the last slot) *)
+Theorem C15_replace_pages : forall before (run : run_t) news,
+  run <> [] -> news <> [] ->
+  Forall (fun og => Forall page_wf (snd og)) run ->
+  let old0 := fst (hd (new_page, []) run) in
+  let oldl := fst (last run (new_page, [])) in
+  let prepared := prepare_new old0 oldl news in
+  Forall (fun p => header_ok p = true /\ lacing_count p <= 255) prepared ->
+  0 <= p_sequence old0 -> p_sequence old0 + zlen news + zlen (snd (last run (new_page, []))) <= two32 ->
+  replace (render_all (before ++ old_pages_of run)) (old_args (zlen (render_all before)) run) news =
+    (Ok tt,
+     render_all (before ++ interleave (if zlen run =? zlen news then run
+                                       else renumber_tail (p_serial old0) (p_sequence old0 + zlen news) run) prepared)).
+Proof. exact replace_pages_spec. Qed.
+Print Assumptions C15_replace_pages.
+
+(* ... and read by logical stream: every other stream keeps its pages, byte-identical and in order; the edited stream
+   consists of the prepared new pages followed by its later pages, numbered consecutively from the first old page's
+   number (fewer, equal or more new pages; for an equal count the later pages keep their numbers, which continue
+   gaplessly exactly when they did before) *)
+Theorem C15_replace_stream_view : forall (a : run_t) on Gn news,
+  let run := a ++ [(on, Gn)] in
+  let old0 := fst (hd (new_page, []) run) in
+  let s := p_serial old0 in
+  let prepared := prepare_new old0 on news in
+  let result := interleave (if zlen run =? zlen news then run
+                            else renumber_tail s (p_sequence old0 + zlen news) run) prepared in
+  news <> [] ->
+  Forall (fun og => p_serial (fst og) = s) run ->
+  Forall (fun og => filter (is_serial s) (snd og) = []) a ->
+  (zlen run = zlen news -> seq_from (p_sequence old0 + zlen news) (filter (is_serial s) Gn)) ->
+  filter (not_serial s) result = filter (not_serial s) (old_pages_of run) /\
+  seq_from (p_sequence old0) (filter (is_serial s) result) /\
+  filter (is_serial s) result =
+    prepared ++ filter (is_serial s) (if zlen run =? zlen news then Gn
+                                      else renumber_pages s (p_sequence old0 + zlen news) Gn).
+Proof. exact replace_stream_view. Qed.
+Print Assumptions C15_replace_stream_view.
+
 (* non-vacuity *)
 Example C15_ex_page_wf :
   page_wf (mkPage 0 5 (-1) 4294967295 7 false [[1; 2]; repeat 3 510]) /\
@@ -132,4 +194,12 @@ Example C15_ex_paging :
   rmap (map (fun p => (p_sequence p, p_complete p, continued p, p_position p, map (@zlen Z) (p_packets p))))
        (from_packets 255 0 [[1]; repeat 2 600; []] 3) =
   Ok [(3, false, false, 0, [1; 255]); (4, false, true, -1, [255]); (5, true, true, 0, [90; 0])].
+Proof. vm_compute. reflexivity. Qed.
+(* two old pages of serial 7 (numbers 3, 4) interleaved with serial 9, replaced by ONE new page: the later page of
+   serial 7 is renumbered 5 -> 4, the pages of serial 9 are untouched *)
+Example C15_ex_replace :
+  let mk s q pk := mkPage 0 0 0 s q true [pk] in
+  replace (render_all [mk 7 3 [1]; mk 9 0 [2]; mk 7 4 [3]; mk 9 1 [4]; mk 7 5 [5]])
+          [(0, mk 7 3 [1]); (58, mk 7 4 [3])] [mk 0 0 [6; 6]] =
+  (Ok tt, render_all [mk 7 3 [6; 6]; mk 9 0 [2]; mk 9 1 [4]; mk 7 4 [5]]).
 Proof. vm_compute. reflexivity. Qed.
